@@ -15,7 +15,11 @@
 (*           element counts, tags at both ends of their ranges             *)
 (*   ev      every element_value kind, nested to depth 2, in each of the   *)
 (*           five attributes that carry one                                *)
-(*   pair    every ordered pair of attribute kinds side by side            *)
+(*   pair    every ordered pair of attribute kinds side by side (thorough: *)
+(*           at every level)                                               *)
+(*   wf      one attribute kind with 0..3 rows in a class that is well      *)
+(*           formed in every respect an independent strict reader checks:  *)
+(*           what is written must be accepted by other readers             *)
 (*   incons  attributes whose name index denotes another name: outside the *)
 (*           round-trip law, the write-side laws still apply               *)
 (* Cases are drawn in two steps of Next so that TLC's workers share them.  *)
@@ -204,13 +208,76 @@ EvCase(a, ev) ==
 
 ---------------------------------------------------------------------------
 (* two attributes side by side; an attribute found through the wrong name *)
-PairCase(a1, a2) ==
-    LET pool == PoolFor("plain", IF a1 = a2 THEN <<a1>> ELSE <<a1, a2>>)
+PairCase(a1, a2, level) ==
+    LET names == (IF a1 = a2 THEN <<a1>> ELSE <<a1, a2>>)
+                 \o (IF level = "code" /\ "Code" \notin {a1, a2} THEN <<"Code">> ELSE <<>>)
+                 \o (IF level = "component" /\ "Record" \notin {a1, a2} THEN <<"Record">> ELSE <<>>)
+        pool == PoolFor("plain", names)
         mk(a) == MkAttr(a, Idx(pool, NameOf(a)), <<1, 1>>, <<>>)
-    IN Cls(pool, ThisOf(pool), <<>>, <<>>, <<>>, <<mk(a1), mk(a2)>>)
+        u == Idx(pool, NameA)
+    IN CASE level = "class" -> Cls(pool, ThisOf(pool), <<>>, <<>>, <<>>, <<mk(a1), mk(a2)>>)
+         [] level = "field" -> Cls(pool, ThisOf(pool), <<>>, <<Member(u, u, <<mk(a1), mk(a2)>>)>>, <<>>, <<>>)
+         [] level = "method" -> Cls(pool, ThisOf(pool), <<>>, <<>>, <<Member(u, u, <<mk(a1), mk(a2)>>)>>, <<>>)
+         [] level = "code" -> Cls(pool, ThisOf(pool), <<>>, <<>>,
+                                  <<Member(u, u, <<MkAttr("Code", Idx(pool, AttrName["Code"]), <<1>>, <<mk(a1), mk(a2)>>)>>)>>, <<>>)
+         [] level = "component" -> Cls(pool, ThisOf(pool), <<>>, <<>>, <<>>,
+                                       <<MkAttr("Record", Idx(pool, AttrName["Record"]), <<1>>, <<mk(a1), mk(a2)>>)>>)
 InconsCase(a, b) ==       \* kind a, named as b
     LET pool == PoolFor("plain", <<b>>)
     IN Cls(pool, ThisOf(pool), <<>>, <<>>, <<>>, <<MkAttr(a, Idx(pool, NameOf(b)), <<1, 0>>, <<>>)>>)
+
+---------------------------------------------------------------------------
+(* wf family: small classes that are well-formed in every respect the independent strict parser checks (every index  *)
+(* denotes a constant of the required kind, descriptors are descriptors, code is code, positions are instruction      *)
+(* boundaries), one attribute kind each with n rows, without / with a two-slot constant in front of everything:       *)
+(* what the crate writes for them must be accepted by other readers (cfkit, duke)                                     *)
+WfKinds == {"SourceFile", "Signature", "Deprecated", "Synthetic", "SourceDebugExtension", "Exceptions", "InnerClasses",
+            "EnclosingMethod", "NestHost", "NestMembers", "PermittedSubclasses", "ConstantValue", "MethodParameters", "Record",
+            "RuntimeVisibleAnnotations", "RuntimeInvisibleAnnotations", "RuntimeVisibleParameterAnnotations",
+            "RuntimeInvisibleParameterAnnotations", "AnnotationDefault", "Code", "LineNumberTable", "LocalVariableTable",
+            "LocalVariableTypeTable", "StackMapTable", "Other"}
+WfCase(a, n, wide) ==
+    LET front == IF wide THEN <<LongE>> ELSE <<>>
+        raw == front \o <<Utf8E(NameA), [k |-> "Class", name_index |-> 0], Utf8E(DescI), Utf8E(DescV), IntE,
+                          Utf8E(NameOf(a)), Utf8E(AttrName["Code"])>>
+        o == Len(front)
+        ix(i) == IndexOfPos(raw, o + i)
+        pool == [i \in 1..Len(raw) |-> IF i = o + 2 THEN [k |-> "Class", name_index |-> ix(1)] ELSE raw[i]]
+        u == ix(1)  c == ix(2)  d == ix(3)  m == ix(4)  int == ix(5)  nm == ix(6)  code == IF a = "Code" THEN ix(6) ELSE ix(7)
+        ev == [k |-> "Integer", const_value_index |-> int]
+        anno == [type_index |-> d, element_value_pairs |-> <<[element_name_index |-> u, value |-> ev]>>]
+        rows(r) == [j \in 1..n |-> r]
+        at(body) == ("k" :> a) @@ ("attribute_name_index" :> nm) @@ body
+        codeAttr(inner) == [k |-> "Code", attribute_name_index |-> code, max_stack |-> 1, max_locals |-> 1, code |-> <<0, 177>>,       \* nop; return
+                            exception_table |-> (IF a = "Code" THEN rows([start_pc |-> 0, end_pc |-> 1, handler_pc |-> 1, catch_type |-> 0]) ELSE <<>>),
+                            attributes |-> inner]
+        mk(fl, me, at0) == Cls(pool, c, <<>>, fl, me, at0)
+        onClass(body) == mk(<<>>, <<>>, <<at(body)>>)
+        onField(body) == mk(<<[access_flags |-> 25, name_index |-> u, descriptor_index |-> d, attributes |-> <<at(body)>>]>>, <<>>, <<>>)
+        onAbstract(body) == mk(<<>>, <<Member(u, m, <<at(body)>>)>>, <<>>)
+        onCode(inner) == mk(<<>>, <<[access_flags |-> 9, name_index |-> u, descriptor_index |-> m, attributes |-> <<codeAttr(inner)>>]>>, <<>>)
+    IN CASE a = "SourceFile" -> onClass([sourcefile_index |-> u])
+         [] a = "Signature" -> onClass([signature_index |-> u])
+         [] a \in {"Deprecated", "Synthetic"} -> onClass(<<>>)
+         [] a = "SourceDebugExtension" -> onClass([debug_extension |-> [j \in 1..n |-> 64 + j]])
+         [] a = "Exceptions" -> onAbstract([exception_index_table |-> rows(c)])
+         [] a = "InnerClasses" -> onClass([classes |-> rows([inner_class_info_index |-> c, outer_class_info_index |-> 0, inner_name_index |-> 0, inner_class_access_flags |-> 1])])
+         [] a = "EnclosingMethod" -> onClass([class_index |-> c, method_index |-> 0])
+         [] a = "NestHost" -> onClass([host_class_index |-> c])
+         [] a \in {"NestMembers", "PermittedSubclasses"} -> onClass([classes |-> rows(c)])
+         [] a = "ConstantValue" -> onField([constantvalue_index |-> int])
+         [] a = "MethodParameters" -> onAbstract([parameters |-> rows([name_index |-> u, access_flags |-> 16])])
+         [] a = "Record" -> onClass([components |-> rows([name_index |-> u, descriptor_index |-> d, attributes |-> <<>>])])
+         [] a \in {"RuntimeVisibleAnnotations", "RuntimeInvisibleAnnotations"} -> onClass([annotations |-> rows(anno)])
+         [] a \in {"RuntimeVisibleParameterAnnotations", "RuntimeInvisibleParameterAnnotations"} ->
+                onAbstract([parameter_annotations |-> rows([annotations |-> <<anno>>])])
+         [] a = "AnnotationDefault" -> onAbstract([default_value |-> ev])
+         [] a = "Code" -> onCode(<<>>)
+         [] a = "LineNumberTable" -> onCode(<<at([line_number_table |-> [j \in 1..n |-> [start_pc |-> 0, line_number |-> j]]])>>)
+         [] a = "LocalVariableTable" -> onCode(<<at([local_variable_table |-> [j \in 1..n |-> [start_pc |-> 0, length |-> 1, name_index |-> u, descriptor_index |-> d, index |-> j - 1]]])>>)
+         [] a = "LocalVariableTypeTable" -> onCode(<<at([local_variable_type_table |-> [j \in 1..n |-> [start_pc |-> 0, length |-> 1, name_index |-> u, signature_index |-> d, index |-> j - 1]]])>>)
+         [] a = "StackMapTable" -> onCode(<<at([entries |-> [j \in 1..(IF n > 0 THEN 1 ELSE 0) |-> [k |-> "SameFrame", offset_delta |-> 0]]])>>)
+         [] a = "Other" -> onClass([info |-> [j \in 1..n |-> 200 + j]])
 
 ---------------------------------------------------------------------------
 Init == phase = "start" /\ key = <<>> /\ x = <<>> /\ wf = FALSE /\ cls = ""
@@ -226,6 +293,7 @@ Step1 ==
     \/ \E a \in EvCarriers, k \in EvKinds : Pick1(<<"ev", a, k>>)
     \/ \E a \in AttrKinds : Pick1(<<"pair", a>>)
     \/ \E a \in AttrKinds : Pick1(<<"incons", a>>)
+    \/ \E a \in WfKinds : Pick1(<<"wf", a>>)
 
 Step2 ==
     /\ phase = "key"
@@ -253,7 +321,9 @@ Step2 ==
                      /\ (k2 \notin EvNested => m = 0)
                      /\ (n = 0 => k2 = "Byte")
                      /\ Case(EvCase(key[2], Ev1(key[3], n, k2, m)), FALSE, "ev/" \o key[3])
-         [] key[1] = "pair" -> \E a2 \in AttrKinds : Case(PairCase(key[2], a2), FALSE, "pair")
+         [] key[1] = "pair" -> \E a2 \in AttrKinds, level \in (IF Tier = 1 THEN Levels ELSE {"class"}) :
+                                   Case(PairCase(key[2], a2, level), FALSE, "pair")
+         [] key[1] = "wf" -> \E n \in 0..3, w \in BOOLEAN : Case(WfCase(key[2], n, w), TRUE, "wf/" \o key[2])
          [] key[1] = "incons" -> \E b \in AttrKinds \ {key[2]} :
                                    /\ (Tier = 0 => b \in {"Other", "Signature", "Code", "Deprecated"})
                                    /\ Case(InconsCase(key[2], b), FALSE, "incons")
